@@ -4,9 +4,9 @@ from harness import gen_text as G
 
 class C19(Prop):
     id = 'C19'
-    theorems = ['C19.line_spec', 'C19.prefix_spec', 'C19.render_spec', 'C19.starts_with_slashes',
+    theorems = ['C19.files_code_independent', 'C19.code_ignores_leading_comment', 'C19.line_spec', 'C19.prefix_spec', 'C19.render_spec', 'C19.starts_with_slashes',
                 'C19.content_rendering', 'C19.length_preserved']
-    proof_modules = ['DznProofs.C19']
+    proof_modules = ['DznProofs.C19', 'DznProofs.C19Files']
     level_rule = ('hostile comment text: every Python line separator, leading/trailing whitespace, '
                   '*/, trailing backslash, #include lines, NBSP, nested content incl. nested '
                   'TextBlock/Comment objects; non-trivial = text with a separator, code-like token '
